@@ -1140,3 +1140,78 @@ impl Frag {
         }
     }
 }
+
+// --------------------------------------------------------------------------
+// Specification-side lift of a fragment to a policy (Miniscript spec, "policy
+// to miniscript" read backwards): wrappers are transparent.
+
+use crate::pol::{Atom, Pol};
+
+impl Frag {
+    pub fn to_pol(&self) -> Pol {
+        match self {
+            Frag::False => Pol::Unsat,
+            Frag::True => Pol::Trivial,
+            Frag::PkK(k) | Frag::PkH(k) => Pol::Atom(Atom::Key(k.id)),
+            Frag::After(n) => Pol::Atom(Atom::After(*n)),
+            Frag::Older(n) => Pol::Atom(Atom::Older(*n)),
+            Frag::Sha256(i) => Pol::Atom(Atom::Sha256(*i)),
+            Frag::Hash256(i) => Pol::Atom(Atom::Hash256(*i)),
+            Frag::Ripemd160(i) => Pol::Atom(Atom::Ripemd160(*i)),
+            Frag::Hash160(i) => Pol::Atom(Atom::Hash160(*i)),
+            Frag::Alt(x)
+            | Frag::Swap(x)
+            | Frag::Check(x)
+            | Frag::DupIf(x)
+            | Frag::Verify(x)
+            | Frag::NonZero(x)
+            | Frag::ZeroNotEqual(x) => x.to_pol(),
+            Frag::AndV(a, b) | Frag::AndB(a, b) => Pol::And(vec![a.to_pol(), b.to_pol()]),
+            Frag::OrB(a, b) | Frag::OrC(a, b) | Frag::OrD(a, b) | Frag::OrI(a, b) => {
+                Pol::Or(vec![(1, a.to_pol()), (1, b.to_pol())])
+            }
+            Frag::AndOr(a, b, c) => {
+                Pol::Or(vec![(1, Pol::And(vec![a.to_pol(), b.to_pol()])), (1, c.to_pol())])
+            }
+            Frag::Thresh(k, xs) => Pol::Thresh(*k, xs.iter().map(|x| x.to_pol()).collect()),
+            Frag::Multi(k, ks) | Frag::SortedMulti(k, ks) | Frag::MultiA(k, ks) | Frag::SortedMultiA(k, ks) => {
+                Pol::Thresh(*k, ks.iter().map(|k| Pol::Atom(Atom::Key(k.id))).collect())
+            }
+        }
+    }
+
+    /// Is there any satisfaction at all (structurally)?
+    pub fn satisfiable(&self) -> bool {
+        match self {
+            Frag::False => false,
+            Frag::Alt(x)
+            | Frag::Swap(x)
+            | Frag::Check(x)
+            | Frag::DupIf(x)
+            | Frag::Verify(x)
+            | Frag::NonZero(x)
+            | Frag::ZeroNotEqual(x) => x.satisfiable(),
+            Frag::AndV(a, b) | Frag::AndB(a, b) => a.satisfiable() && b.satisfiable(),
+            Frag::OrB(a, b) | Frag::OrC(a, b) | Frag::OrD(a, b) | Frag::OrI(a, b) => {
+                a.satisfiable() || b.satisfiable()
+            }
+            Frag::AndOr(a, b, c) => (a.satisfiable() && b.satisfiable()) || c.satisfiable(),
+            Frag::Thresh(k, xs) => xs.iter().filter(|x| x.satisfiable()).count() >= *k,
+            _ => true,
+        }
+    }
+
+    pub fn height(&self) -> usize {
+        self.children().iter().map(|c| 1 + c.height()).max().unwrap_or(0)
+    }
+
+    pub fn any(&self, p: &dyn Fn(&Frag) -> bool) -> bool {
+        let mut found = false;
+        self.walk(&mut |n| {
+            if p(n) {
+                found = true
+            }
+        });
+        found
+    }
+}
